@@ -204,10 +204,62 @@ def check_skeleton(desc, tier, twin=False):
                 viol(name, "exception" if "raises" in txt else "value", f"with {H.env_text(cenv)}: {txt}")
     except sym.Unsupported as e:
         res.note = f"outside proxy model: {e}"
+    # witness with exact rational arguments (the proxies identify 0.25 with 1/4; Python's numbers do not): the generated
+    # code must return what the evaluator returns, not a float approximation of it
+    renv = _rational_env(desc)
+    if renv is not None and res.status == "ok" and not twin:
+        orc = H.outcome(lambda: EvaluationMapper(renv)(orc_expr))
+        if orc[0] == "val":
+            for name, t in live:
+                res.path_assertions += 1
+                differs, txt = H.replay_differs(lambda t=t: t(renv), lambda: orc[1])
+                if differs:
+                    viol(name, "rational-arguments", f"with exact rational arguments {H.env_text(renv)}: {txt}")
     if not ex.complete and res.status == "ok":
         res.status = "inconclusive"
         res.note = "; ".join(ex.inconclusive_reasons[:2])
     return H.finish(res, [ex.stats], q)
+
+
+class _RatArr:
+    def __getitem__(self, idx):
+        from fractions import Fraction
+        return (sum(idx) if isinstance(idx, tuple) else idx) + Fraction(1, 11)
+
+
+def _rational_env(desc):
+    """a fixed environment of exact rationals (None where the skeleton needs integers)"""
+    import types
+    from fractions import Fraction
+    tg = skel.tags(desc)
+    if "bit" in tg or any(k in skel.kinds_in(desc) for k in ("floordiv", "rem")):
+        return None
+
+    def has_float(d):
+        if d[0] == "c":
+            return isinstance(d[1], float)
+        if d[0] == "v":
+            return False
+        return any(has_float(c) for c in d[1:])
+    if has_float(desc):
+        return None      # with float constants the order of additions shows in the last digit: not what is compared here
+    env = {}
+    for i, (name, typ) in enumerate(skel.leaves(desc)):
+        if typ in ("num", "tnum"):
+            env[name] = Fraction(2 * i + 1, 3)
+        elif typ == "exp":
+            env[name] = 2
+        elif typ == "bool":
+            env[name] = i % 2 == 0
+        elif typ == "fn":
+            env[name] = lambda *a, **k: sum(a, Fraction(1, 7)) + sum(k.values())
+        elif typ in ("arr", "arr2"):
+            env[name] = _RatArr()
+        elif typ == "rec":
+            env[name] = types.SimpleNamespace(fld=Fraction(5, 7))
+        else:
+            return None
+    return env
 
 
 def check_argorder(n_vars):
